@@ -108,7 +108,7 @@ def run(tier, seed):
     ok, log = core.build_vrun()
     specs = spec_list(rng, 10 if tier == "quick" else 40)
     facts = sketchcheck.learn_specs("C07", specs) if ok else {}
-    n = 300 if tier == "quick" else 8000
+    n = 300 if tier == "quick" else 4000
     builders = ([build_streams(rng, facts, "g%d" % i) for i in range(n)] + [build_exact_into_plain(rng, facts, "x%d" % i) for i in range(n // 3)]) if facts else []
     return sketchcheck.run_sketch_property(
         "C07", tier, seed, builders,
